@@ -25,7 +25,17 @@
 //! one process-wide OpenSSL mutex); schedules are partitioned by their first grants, every schedule is executed,
 //! judged and counted by exactly one process.
 //!
+//! "Distinct by construction": besides explicitly built contexts, objects are obtained through every construction route
+//! of the public API (Builder::default / Builder::new / Builder::from_context(Context::new()) / from_shared_context(own Arc),
+//! Reader::default / from_context / from_shared_context / legacy Reader::from_stream). For every pair (a, b) of routes, both
+//! objects alive, ALL interleavings of `a.context().cancel()` with b's operation are executed (b gated at every checkpoint
+//! when its context is explicit, atomic otherwise): b must keep its sequential result. After every harness, fresh objects
+//! from every route must still give their initial results.
+//!
 //! Mutants caught (mutant_run, quick tier):
+//!   /tmp/seed-C24 (Builder::default()/Reader::default() share one process-wide default Context)
+//!       -> VIOLATION  keys `cancel-leaks-between-objects a=Builder::default b=Builder::default got=Cancelled`,
+//!          `fresh-object-affected-by-earlier-objects route=Builder::default|Reader::default got=Cancelled`
 //!   C24-static-cancel-flag.diff   Context::cancel() also sets a process-wide flag that check_progress honours
 //!       -> VIOLATION  keys `cancelled-without-cancel act=read …`, `fresh-context-affected-by-earlier-contexts act=sign|read got=Cancelled`,
 //!          `free-running act=… got=Cancelled`
@@ -451,6 +461,262 @@ fn run_schedule(h: &Harness, fx: &Arc<Fixture>, prefix: &[usize]) -> Execution {
     if needs_os_threads(h) { execute(h, fx, prefix) } else { execute_shuttle(h, fx, prefix) }
 }
 
+// ------------------------------------------------------------------------------------------------
+// "distinct contexts by construction": every way the public API offers to obtain a Builder / Reader
+
+#[derive(Clone, Copy, PartialEq, Eq, Debug)]
+enum Route {
+    BuilderDefault,
+    /// deprecated Builder::new() (legacy thread-local settings)
+    BuilderNew,
+    BuilderFromContext,
+    BuilderFromShared,
+    ReaderDefault,
+    ReaderFromContext,
+    ReaderFromShared,
+    /// deprecated Reader::from_stream (legacy thread-local settings); constructed by the operation itself
+    ReaderLegacy,
+}
+
+const BUILDER_ROUTES: [Route; 4] = [Route::BuilderDefault, Route::BuilderNew, Route::BuilderFromContext, Route::BuilderFromShared];
+const ALL_ROUTES: [Route; 8] = [
+    Route::BuilderDefault, Route::BuilderNew, Route::BuilderFromContext, Route::BuilderFromShared,
+    Route::ReaderDefault, Route::ReaderFromContext, Route::ReaderFromShared, Route::ReaderLegacy,
+];
+
+impl Route {
+    fn name(&self) -> &'static str {
+        match self {
+            Route::BuilderDefault => "Builder::default",
+            Route::BuilderNew => "Builder::new",
+            Route::BuilderFromContext => "Builder::from_context(Context::new())",
+            Route::BuilderFromShared => "Builder::from_shared_context(own Arc)",
+            Route::ReaderDefault => "Reader::default",
+            Route::ReaderFromContext => "Reader::from_context(Context::new())",
+            Route::ReaderFromShared => "Reader::from_shared_context(own Arc)",
+            Route::ReaderLegacy => "Reader::from_stream",
+        }
+    }
+    fn parse(s: &str) -> Option<Route> {
+        ALL_ROUTES.iter().copied().find(|r| r.name() == s)
+    }
+    /// explicit contexts can carry the baton callback, so their operation is gated at every checkpoint
+    fn gated(&self) -> bool {
+        matches!(self, Route::BuilderFromContext | Route::BuilderFromShared | Route::ReaderFromContext | Route::ReaderFromShared)
+    }
+}
+
+/// An object obtained through a route, ready to run its operation.
+enum Obj {
+    B(Builder),
+    R(Reader),
+    LegacyRead,
+}
+
+fn plain_ctx(baton: Option<&Arc<Baton>>) -> Context {
+    // explicit contexts of the route pairs use DEFAULT settings (they must be comparable with the default routes)
+    match baton {
+        Some(b) => {
+            let b2 = b.clone();
+            Context::new().with_progress_callback(move |phase: ProgressPhase, step, total| {
+                b2.gate(&format!("{phase:?} {step}/{total}"));
+                true
+            })
+        }
+        None => Context::new(),
+    }
+}
+
+#[allow(deprecated)]
+fn construct(route: Route, baton: Option<&Arc<Baton>>) -> Obj {
+    let def = r#"{"title":"t"}"#;
+    let fail = |e: c2pa::Error| -> ! { kit::ev::machinery(format!("C24: cannot construct through {}: {e:?}", route.name())) };
+    let with = |b: Builder| -> Builder {
+        let mut b = b.with_definition(def).unwrap_or_else(|e| fail(e));
+        b.set_intent(c2pa::BuilderIntent::Edit);
+        b
+    };
+    match route {
+        Route::BuilderDefault => Obj::B(with(Builder::default())),
+        Route::BuilderNew => Obj::B(with(Builder::new())),
+        Route::BuilderFromContext => Obj::B(with(Builder::from_context(plain_ctx(baton)))),
+        Route::BuilderFromShared => Obj::B(with(Builder::from_shared_context(&plain_ctx(baton).into_shared()))),
+        Route::ReaderDefault => Obj::R(Reader::default()),
+        Route::ReaderFromContext => Obj::R(Reader::from_context(plain_ctx(baton))),
+        Route::ReaderFromShared => Obj::R(Reader::from_shared_context(&plain_ctx(baton).into_shared())),
+        Route::ReaderLegacy => Obj::LegacyRead,
+    }
+}
+
+/// The object's operation: sign for builders, read for readers. Same result classes as `actor_body`.
+#[allow(deprecated)]
+fn operate(obj: Obj, fx: &Fixture) -> String {
+    match obj {
+        Obj::B(mut b) => {
+            let r = par::guard(|| {
+                let mut dst = Cursor::new(Vec::new());
+                b.sign(signer(), fx.asset.mime, &mut Cursor::new(&fx.asset.data), &mut dst)?;
+                Ok::<Vec<u8>, c2pa::Error>(dst.into_inner())
+            });
+            match r {
+                Err(p) => format!("PANIC {p}"),
+                Ok(Err(c2pa::Error::OperationCancelled)) => "Cancelled".into(),
+                Ok(Err(e)) => gutil::err_class(&e),
+                Ok(Ok(bytes)) => match sdk::read(sdk::ctx(), fx.asset.mime, &bytes) {
+                    Ok(r) => format!("Ok:{}", gutil::canon2(&r, true)),
+                    Err(e) => format!("Ok:unreadable {}", gutil::err_class(&e)),
+                },
+            }
+        }
+        Obj::R(rd) => match par::guard(|| rd.with_stream(fx.asset.mime, Cursor::new(&fx.signed))) {
+            Err(p) => format!("PANIC {p}"),
+            Ok(Err(c2pa::Error::OperationCancelled)) => "Cancelled".into(),
+            Ok(Err(e)) => gutil::err_class(&e),
+            Ok(Ok(r)) => format!("Ok:{}", gutil::canon2(&r, false)),
+        },
+        Obj::LegacyRead => match par::guard(|| Reader::from_stream(fx.asset.mime, Cursor::new(&fx.signed))) {
+            Err(p) => format!("PANIC {p}"),
+            Ok(Err(c2pa::Error::OperationCancelled)) => "Cancelled".into(),
+            Ok(Err(e)) => gutil::err_class(&e),
+            Ok(Ok(r)) => format!("Ok:{}", gutil::canon2(&r, false)),
+        },
+    }
+}
+
+/// One object of the route, alone, on its own thread (legacy routes read thread-local settings).
+fn route_alone(route: Route, fx: &Arc<Fixture>) -> String {
+    let fx = fx.clone();
+    std::thread::spawn(move || operate(construct(route, None), &fx)).join().unwrap_or_else(|_| "PANIC (thread)".into())
+}
+
+struct PairExec {
+    steps: Vec<(usize, Vec<usize>, String)>,
+    /// result of b's operation
+    b: String,
+    /// result of a's own operation AFTER the execution (a was cancelled through its context)
+    a_after: String,
+    hang: bool,
+}
+
+/// a and b are constructed (both alive), then actor 0 = `a.context().cancel()`, actor 1 = b's operation, under the baton.
+fn execute_pair(ra: Route, rb: Route, fx: &Arc<Fixture>, prefix: &[usize]) -> PairExec {
+    let baton = Baton::new(2);
+    let a = match construct(ra, None) {
+        Obj::B(b) => b,
+        _ => kit::ev::machinery("C24: the cancelling object must be a Builder (Reader exposes no context accessor)"),
+    };
+    let b = construct(rb, if rb.gated() { Some(&baton) } else { None });
+    let a_ctx = Arc::clone(a.context());
+    let result: Arc<Mutex<Option<String>>> = Arc::new(Mutex::new(None));
+    let mut handles = vec![];
+    {
+        let bt = baton.clone();
+        handles.push(std::thread::spawn(move || {
+            ACTOR.with(|x| x.set(Some(0)));
+            bt.gate("start");
+            a_ctx.cancel();
+            ACTOR.with(|x| x.set(None));
+            bt.done(0);
+        }));
+    }
+    {
+        let (bt, fx2, res) = (baton.clone(), fx.clone(), result.clone());
+        handles.push(std::thread::spawn(move || {
+            ACTOR.with(|x| x.set(Some(1)));
+            bt.gate("start");
+            let r = operate(b, &fx2);
+            *res.lock().unwrap_or_else(|e| e.into_inner()) = Some(r);
+            ACTOR.with(|x| x.set(None));
+            bt.done(1);
+        }));
+    }
+    let mut steps: Vec<(usize, Vec<usize>, String)> = vec![];
+    let mut hang = !baton.quiesce();
+    while !hang {
+        let en = baton.enabled();
+        if en.is_empty() {
+            break;
+        }
+        let d = steps.len();
+        let choice = if d < prefix.len() && en.contains(&prefix[d]) {
+            prefix[d]
+        } else {
+            if d < prefix.len() {
+                DIVERGED.store(true, Ordering::SeqCst);
+            }
+            match steps.last() {
+                Some((p, _, _)) if en.contains(p) => *p,
+                _ => en[0],
+            }
+        };
+        let at = baton.grant(choice);
+        steps.push((choice, en, at));
+        hang = !baton.quiesce();
+    }
+    if hang {
+        return PairExec { steps, b: "hang".into(), a_after: String::new(), hang: true };
+    }
+    for h in handles {
+        let _ = h.join();
+    }
+    let b = result.lock().unwrap_or_else(|e| e.into_inner()).clone().unwrap_or_else(|| "missing".into());
+    let fx3 = fx.clone();
+    let a_after = std::thread::spawn(move || operate(Obj::B(a), &fx3)).join().unwrap_or_else(|_| "PANIC (thread)".into());
+    PairExec { steps, b, a_after, hang: false }
+}
+
+fn judge_pair(run: &Run, refs: &Refs, ra: Route, rb: Route, ex: &PairExec) -> bool {
+    let schedule: Vec<usize> = ex.steps.iter().map(|s| s.0).collect();
+    let case = json!({"pair": [ra.name(), rb.name()], "schedule": schedule});
+    let want = refs.routes.iter().find(|(r, _)| *r == rb).map(|(_, s)| s.as_str()).unwrap_or("");
+    if ex.hang {
+        run.violation(format!("hang pair a={} b={}", ra.name(), rb.name()), format!("no progress after schedule {schedule:?}"), case);
+        return false;
+    }
+    if ex.b != want {
+        run.outcome("cancel on one object's context changes another object's result");
+        run.violation(
+            format!("cancel-leaks-between-objects a={} b={} got={}", ra.name(), rb.name(), short_result(&ex.b).split(':').next().unwrap_or("")),
+            format!("a = {}, b = {} (both alive, contexts distinct by construction); schedule {schedule:?} of [a.context().cancel(), b's operation]: b ends with {} instead of its sequential result {}", ra.name(), rb.name(), short_result(&ex.b), short_result(want)),
+            case,
+        );
+        return false;
+    }
+    run.outcome(if ex.a_after == "Cancelled" { "pair: b unaffected, a itself cancelled" } else { "pair: b unaffected (a's own operation not cancelled)" });
+    true
+}
+
+/// All route pairs x all interleavings. Returns (executions, transitions, executions in which a's cancel was effective on a).
+fn explore_pairs(run: &Run, refs: &Refs, fx: &Arc<Fixture>) -> (u64, u64, u64) {
+    let (mut execs, mut trans, mut effective) = (0u64, 0u64, 0u64);
+    for ra in BUILDER_ROUTES {
+        for rb in ALL_ROUTES {
+            let mut stack: Vec<Vec<usize>> = vec![vec![]];
+            while let Some(prefix) = stack.pop() {
+                let ex = execute_pair(ra, rb, fx, &prefix);
+                execs += 1;
+                trans += ex.steps.len() as u64;
+                stack.extend(children_of(&ex.steps, prefix.len(), None));
+                let held = judge_pair(run, refs, ra, rb, &ex);
+                if held && ex.a_after == "Cancelled" {
+                    effective += 1;
+                    run.nontrivial(format!("pair/{}/{}/{:?}", ra.name(), rb.name(), ex.steps.iter().map(|s| s.0).collect::<Vec<_>>()));
+                }
+                if !held && refs.routes.iter().any(|(r, want)| *r == rb && &route_alone(rb, fx) != want) {
+                    // the leak is permanent: every later pair would only repeat it under another name
+                    run.cap_hit("route pairs stopped: a cancel leaked process-wide, later executions would not be independent");
+                    return (execs, trans, effective);
+                }
+                if execs % 61 == 5 {
+                    run.sample(json!({"pair": [ra.name(), rb.name()], "schedule": ex.steps.iter().map(|s| s.0).collect::<Vec<_>>(),
+                        "gates_left": ex.steps.iter().map(|s| format!("{}:{}", s.0, s.2)).collect::<Vec<_>>(), "b": short_result(&ex.b), "a_afterwards": short_result(&ex.a_after)}));
+                }
+            }
+        }
+    }
+    (execs, trans, effective)
+}
+
 fn preemptions(steps: &[(usize, Vec<usize>, String)], upto: usize) -> usize {
     (1..upto.min(steps.len())).filter(|d| steps[*d].0 != steps[*d - 1].0 && steps[*d].1.contains(&steps[*d - 1].0)).count()
 }
@@ -464,6 +730,8 @@ struct Refs {
     read: String,
     legacy_default: String,
     legacy_after_from_toml: String,
+    /// sequential result of the operation of a fresh object, per construction route
+    routes: Vec<(Route, String)>,
 }
 
 /// Where judgements go (a Run in this process, or a buffer that a shard process prints for its parent).
@@ -1075,6 +1343,25 @@ fn fresh_contexts_unaffected(run: &Run, refs: &Refs, fx: &Arc<Fixture>, after: &
             );
         }
     }
+    // ... and so must objects obtained afterwards through every construction route
+    for (route, want) in &refs.routes {
+        // after an ordinary harness only the routes WITHOUT an explicit context are re-checked (explicit fresh contexts are
+        // what the two operations above just used); after the route pairs all of them
+        if route.gated() && after != "the route pairs" && after != "pair replay" {
+            continue;
+        }
+        let got = route_alone(*route, fx);
+        run.eval();
+        if &got != want {
+            ok = false;
+            run.outcome("fresh object affected by earlier objects");
+            run.violation(
+                format!("fresh-object-affected-by-earlier-objects route={} got={}", route.name(), short_result(&got).split(':').next().unwrap_or("")),
+                format!("after exploring {after}: the operation of an object constructed NOW through {} ends with {} instead of its initial result — something done to earlier objects' contexts (e.g. a cancel) leaked process-wide", route.name(), short_result(&got)),
+                json!({"harness": after, "schedule": [], "note": "run the harness, then construct a fresh object through the route and run its operation"}),
+            );
+        }
+    }
     ok
 }
 
@@ -1100,7 +1387,18 @@ fn sequential_refs(fx: &Arc<Fixture>) -> Refs {
     if l.result != "done" || l.legacy_after == l.legacy_before {
         kit::ev::machinery(format!("C24: legacy Settings::from_toml has no observable effect on its own thread ({})", l.result));
     }
-    Refs { sign: s1.result, read: r1.result, legacy_default: s1.legacy_before, legacy_after_from_toml: l.legacy_after }
+    let mut routes = vec![];
+    for r in ALL_ROUTES {
+        let (x, y) = (route_alone(r, fx), route_alone(r, fx));
+        if x != y {
+            kit::ev::machinery(format!("C24: the operation of a fresh {} object is not deterministic", r.name()));
+        }
+        if !x.starts_with("Ok:") || x.contains("unreadable") {
+            kit::ev::machinery(format!("C24: the operation of a fresh {} object does not succeed: {}", r.name(), short_result(&x)));
+        }
+        routes.push((r, x));
+    }
+    Refs { sign: s1.result, read: r1.result, legacy_default: s1.legacy_before, legacy_after_from_toml: l.legacy_after, routes }
 }
 
 pub fn run(run: &Run, replay: Option<&Value>) {
@@ -1110,7 +1408,8 @@ pub fn run(run: &Run, replay: Option<&Value>) {
     run.rule(
         "per harness (threads over shared/distinct contexts) ALL schedules of baton grants are executed (stateless DFS; where a preemption bound is stated, all schedules within it). \
          evaluations = executions = states; transitions = baton grants (segments executed). non-trivial = executions in which control actually alternates: at least two preemptions \
-         (a thread is descheduled at a checkpoint while it could continue), counted per distinct schedule.",
+         (a thread is descheduled at a checkpoint while it could continue), counted per distinct schedule; for the route pairs (objects from every public construction route, \
+         a.context().cancel() against b's operation): executions in which the cancel was effective on a itself while b kept its sequential result.",
     );
     run.assume("operations interact only at progress checkpoints (cancel flag, callback) and at OnceLock initialisations; OnceLock initialisation races are left to std (trusted)");
     run.assume("one thread runs at a time under the baton; data races inside safe Rust are excluded by the compiler; the crate's unsafe impl Send/Sync sites are trusted");
@@ -1122,6 +1421,23 @@ pub fn run(run: &Run, replay: Option<&Value>) {
     let hs = harnesses(run);
 
     if let Some(c) = replay {
+        if let Some(pair) = c["pair"].as_array() {
+            let ra = pair.first().and_then(|x| x.as_str()).and_then(Route::parse).unwrap_or_else(|| kit::ev::machinery("C24 replay: unknown route"));
+            let rb = pair.get(1).and_then(|x| x.as_str()).and_then(Route::parse).unwrap_or_else(|| kit::ev::machinery("C24 replay: unknown route"));
+            let sch: Vec<usize> = c["schedule"].as_array().map(|a| a.iter().filter_map(|x| x.as_u64().map(|n| n as usize)).collect()).unwrap_or_default();
+            let ex = execute_pair(ra, rb, &fx, &sch);
+            println!("replay pair a={} b={} schedule {sch:?}", ra.name(), rb.name());
+            for (i, s) in ex.steps.iter().enumerate() {
+                println!("  step {i}: actor {} ({}) leaves gate '{}'", s.0, if s.0 == 0 { "a.context().cancel()" } else { "b's operation" }, s.2);
+            }
+            println!("  b: {}\n  a afterwards: {}", short_result(&ex.b), short_result(&ex.a_after));
+            run.eval();
+            run.states(1);
+            run.transitions(ex.steps.len() as u64);
+            judge_pair(run, &refs, ra, rb, &ex);
+            fresh_contexts_unaffected(run, &refs, &fx, "pair replay");
+            return;
+        }
         let name = c["harness"].as_str().unwrap_or("");
         let h = hs.iter().find(|h| h.name == name).unwrap_or_else(|| kit::ev::machinery("C24 replay: unknown harness"));
         let sch: Vec<usize> = c["schedule"].as_array().map(|a| a.iter().filter_map(|x| x.as_u64().map(|n| n as usize)).collect()).unwrap_or_default();
@@ -1145,6 +1461,7 @@ pub fn run(run: &Run, replay: Option<&Value>) {
     }
 
     let mut per: BTreeMap<String, Value> = BTreeMap::new();
+    let mut poisoned = false;
     let t0 = std::time::Instant::now();
     for h in &hs {
         let st = if needs_os_threads(h) { explore(run, h, &refs, &fx) } else { explore_shuttle(run, h, &refs, &fx) };
@@ -1165,11 +1482,59 @@ pub fn run(run: &Run, replay: Option<&Value>) {
         }
         if !unaffected {
             run.cap_hit("exploration stopped: process-wide state changed, later executions would not be independent");
+            poisoned = true;
             break;
         }
         per.insert(h.name.clone(), json!({"interleavings": st.executions, "segments_executed": st.transitions, "with_2+_preemptions": st.alternating, "longest_schedule": st.max_len, "unbounded": exhaustive_all, "elapsed_s": t0.elapsed().as_secs_f64()}));
     }
     run.extra("harnesses", json!(per));
+
+    // ---- objects from every construction route, in pairs: a.context().cancel() against b's operation --------------
+    if !poisoned {
+        let t1 = std::time::Instant::now();
+        let (execs, trans, effective) = explore_pairs(run, &refs, &fx);
+        run.space("route pairs: a in {Builder::default, Builder::new, Builder::from_context(Context::new()), Builder::from_shared_context(own Arc)} x b in those four + {Reader::default, Reader::from_context, Reader::from_shared_context, Reader::from_stream}; \
+                   both alive; all interleavings of [a.context().cancel()] with [b's operation] (gated at every checkpoint when b's context is explicit, else atomic)", execs, true);
+        run.evals(execs);
+        run.states(execs);
+        run.traces(execs);
+        run.transitions(trans);
+        let unaffected = fresh_contexts_unaffected(run, &refs, &fx, "the route pairs");
+        if DIVERGED.load(Ordering::SeqCst) && unaffected {
+            kit::ev::machinery("C24: a recorded schedule prefix of a route pair could not be replayed although fresh objects behave as before");
+        }
+        run.extra("route_pairs", json!({"interleavings": execs, "segments_executed": trans, "with_a_effectively_cancelled": effective, "elapsed_s": t1.elapsed().as_secs_f64()}));
+
+        // free-running: six threads, each with its OWN default-constructed object; the first cancels its own context
+        let rounds = run.tier.pick(10u64, 200u64);
+        for round in 0..rounds {
+            let res: Mutex<Vec<(Route, String)>> = Mutex::new(vec![]);
+            std::thread::scope(|s| {
+                for i in 0..6usize {
+                    let (fx, res) = (&fx, &res);
+                    s.spawn(move || {
+                        let route = if i % 2 == 0 { Route::BuilderDefault } else { Route::ReaderDefault };
+                        let obj = construct(route, None);
+                        if i == 0 {
+                            if let Obj::B(b) = &obj {
+                                b.context().cancel();
+                            }
+                            return;
+                        }
+                        res.lock().unwrap().push((route, operate(obj, fx)));
+                    });
+                }
+            });
+            for (route, r) in res.into_inner().unwrap() {
+                let want = refs.routes.iter().find(|(x, _)| *x == route).map(|(_, s)| s.clone()).unwrap_or_default();
+                if r != want {
+                    run.violation(format!("free-running-default-objects route={} got={}", route.name(), short_result(&r).split(':').next().unwrap_or("")),
+                        format!("round {round}: six threads with their own default-constructed objects, one cancels its own context: {} gives {}", route.name(), short_result(&r)), json!({"harness": "free-running-default-objects", "round": round}));
+                }
+            }
+            run.evals(5);
+        }
+    }
 
 
     // free-running pass: real threads, no baton, shared and distinct contexts
